@@ -70,10 +70,10 @@ type Outcome struct {
 }
 
 type FileSpec struct {
-	Path   string `json:"path"`
-	Size   int    `json:"size"`
-	Seed   uint64 `json:"seed"`
-	Self   bool   `json:"self,omitempty"` // origin is the replica itself (nothing to pull)
+	Path string `json:"path"`
+	Size int    `json:"size"`
+	Seed uint64 `json:"seed"`
+	Self bool   `json:"self,omitempty"` // origin is the replica itself (nothing to pull)
 	// Holders: peers (addresses) that hold the file. Others answer not-found.
 	Holders []string `json:"holders"`
 	// Pre: staging file left at <path>.part by an earlier process life:
@@ -272,6 +272,9 @@ type fileState struct {
 	fetches  int
 	resolves int
 	flagged  bool // a bad-bytes violation was already raised for this file
+	// corruptSeen: wrong bytes were injected for this file (corrupting transfer
+	// delivered or a corrupt leftover); explains a hash-mismatching staging file.
+	corruptSeen bool
 }
 
 type fetchCtl struct {
@@ -605,6 +608,9 @@ func (f *faultFetcher) Fetch(ctx context.Context, peerAddr string, entry *raft.F
 			rs.fired++
 			simrt.Count("fault."+o.Kind, 1)
 		}
+		if o.Kind == "corrupt" || o.Kind == "corrupt-trunc" {
+			fs.corruptSeen = true
+		}
 	}
 	if off > 0 {
 		simrt.Probe("resume_from_partial")
@@ -731,6 +737,15 @@ func (rs *runState) present(fs *fileState) bool {
 	return err == nil && bytes.Equal(b, fs.data)
 }
 
+// finalHow describes what is at the final path of a file that is not present-and-correct.
+func (rs *runState) finalHow(fs *fileState) string {
+	b, err := os.ReadFile(fs.final)
+	if err != nil {
+		return "absent"
+	}
+	return fmt.Sprintf("present with %d wrong bytes", len(b))
+}
+
 func (rs *runState) partState(fs *fileState) string {
 	b, err := os.ReadFile(fs.final + ".part")
 	switch {
@@ -752,7 +767,23 @@ func (rs *runState) partState(fs *fileState) string {
 // empty or (for the catch-up gate) the puller dropped entries on a full queue.
 func (rs *runState) missingClass(fs *fileState, st map[string]int64) string {
 	c := rs.partState(fs)
-	if c != "no-part-file" && c != "part-file-short" {
+	switch c {
+	case "part-file-fullsize-hash-mismatch":
+		switch {
+		case !fs.corruptSeen:
+			c += ".no-corruption-injected"
+		case rs.crashes > 0 || fs.spec.Pre != "":
+			// the staging file may stem from an earlier process life rather than
+			// from a checksum failure of this puller
+			c += ".after-crash-or-leftover"
+		}
+		return c
+	case "part-file-complete-but-not-promoted":
+		if rs.crashes == 0 && fs.spec.Pre != "full-correct" {
+			c += ".no-crash-or-leftover"
+		}
+		return c
+	case "part-file-oversize":
 		return c
 	}
 	c = "part-file-absent-or-short"
@@ -990,8 +1021,8 @@ func (rs *runState) wave(r *replica, ph *Phase, name string) {
 		fs := rs.suspect(missing)
 		st := rs.missingClass(fs, nil)
 		rs.out.Violate("C25.counted-present-while-final-path-missing."+st,
-			"in wave %s the puller counted %d entries as present (skipped_local +%d, pulled +%d) but only %d enqueue attempts concern files that are complete at their final path; e.g. %s is absent at its final path (%s, manifest size %d)",
-			name, claimed, s1["skipped_local"]-s0["skipped_local"], s1["pulled"]-s0["pulled"], bound, fs.spec.Path, st, fs.spec.Size)
+			"in wave %s the puller counted %d entries as present (skipped_local +%d, pulled +%d) but only %d enqueue attempts concern files that are complete at their final path; e.g. %s is %s at its final path (%s, manifest size %d)",
+			name, claimed, s1["skipped_local"]-s0["skipped_local"], s1["pulled"]-s0["pulled"], bound, fs.spec.Path, rs.finalHow(fs), st, fs.spec.Size)
 	}
 	// ---- oracle: the catch-up gate (FullyCaughtUp) is "every manifest file counted present"
 	if r.ranCatchup && r.catchupRet && !r.node.Dead && p.FullyCaughtUp() {
@@ -1006,7 +1037,7 @@ func (rs *runState) wave(r *replica, ph *Phase, name string) {
 			fs := rs.suspect(gm)
 			st := rs.missingClass(fs, p.Stats())
 			rs.out.Violate("C25.catch-up-gate-open-while-final-path-missing."+st,
-				"FullyCaughtUp()=true (status %v) while manifest file %s is absent at its final path (%s)", p.CatchUpStatus(), fs.spec.Path, st)
+				"FullyCaughtUp()=true (status %v) while manifest file %s is %s at its final path (%s)", p.CatchUpStatus(), fs.spec.Path, rs.finalHow(fs), st)
 		}
 	}
 	rs.checkFinals("at-quiescence")
@@ -1056,6 +1087,9 @@ func (rs *runState) execute() {
 		}
 		switch fs.spec.Pre {
 		case "prefix":
+			if n >= len(fs.data) {
+				n = len(fs.data) - 1 // a strict prefix; the complete-length case is "full-correct"
+			}
 			img = append([]byte{}, fs.data[:n]...)
 		case "corrupt-prefix":
 			if n == 0 {
@@ -1063,9 +1097,11 @@ func (rs *runState) execute() {
 			}
 			img = append([]byte{}, fs.data[:n]...)
 			img[(n-1)/2] ^= 0x5a
+			fs.corruptSeen = true
 		case "full-corrupt":
 			img = append([]byte{}, fs.data...)
 			img[n%len(img)] ^= 0x5a
+			fs.corruptSeen = true
 		case "full-correct":
 			img = append([]byte{}, fs.data...)
 		default:
@@ -1129,10 +1165,7 @@ func (rs *runState) execute() {
 			continue
 		}
 		st := rs.missingClass(fs, nil)
-		how := "absent"
-		if b, err := os.ReadFile(fs.final); err == nil {
-			how = fmt.Sprintf("present with %d wrong bytes", len(b))
-		}
+		how := rs.finalHow(fs)
 		rs.out.Violate("C25.not-converged-after-faults-stop."+st,
 			"after the last fault the whole manifest was announced and then every missing entry re-announced alone in %d further rounds (each run to idle): %s is still %s at its final path (%s); puller stats %v",
 			rounds-1, fs.spec.Path, how, st, r.puller.Stats())
